@@ -740,6 +740,14 @@ func (db *DB) searchAll(o Object, field, operator string, value interface{}, con
 	fp := fieldPath(field)
 	searchType := search.valueTypeString()
 
+	// the type of the value is checked against the type of the field as it
+	// is for an indexed field, even when there is no object to compare with
+	if fd, ok := s.Fields[field]; ok {
+		if cast, ok := fd.castable(); ok && cast != searchType {
+			return &Search{db: db, err: fmt.Errorf("%w, cannot cast %T(%v) to %s", ErrCasting, search.Value, search.Value, cast)}
+		}
+	}
+
 	for obj, err := iter.next(); err == nil && err != ErrEOI; obj, err = iter.next() {
 		var test *indexedField
 		var value interface{}
